@@ -9,8 +9,9 @@ readurl <override> <parent> <shape> {D <name> <bytes> <res>}*          -> NONE |
 load ps <fuel> <enc> <href|N> <content> {F <url> <shape>}* {D …}* {K <name>}*   -> ERR e | OK …
 load pu <fuel> <enc> <href> {F …}* {D …}* {K …}*                        -> NONE | ERR e | OK …
 esc <unrepresentable code points> <text>     -> escaped text
-unesc <text>                                  -> token value
-ok <unrepresentable code points> <text>      -> 0 | 1
+unesc <text>                                  -> token value (unicodesub: IDENT, HASH, DIMENSION, FUNCTION …)
+unescs <text>                                 -> token value (stringsub: STRING, INVALID, URI)
+ok | oks <unrepresentable code points> <text> -> 0 | 1
 scan <text>                                   -> items
 sheet <op>*                                   -> one result per op, then the final rule list
 ```
@@ -143,6 +144,12 @@ def handle (line : String) : String :=
   | ["ok", u, t] => match decCps u, decCps t with
       | some u, some t => if ok (fun c => !u.contains c) t then "1" else "0"
       | _, _ => "bad-op"
+  | ["oks", u, t] => match decCps u, decCps t with
+      | some u, some t => if okStr (fun c => !u.contains c) t then "1" else "0"
+      | _, _ => "bad-op"
+  | ["unescs", t] => match decCps t with
+      | some t => encCps (unescapeStr t)
+      | none => "bad-op"
   | ["scan", t] => match decCps t with
       | some t => " ".intercalate ((scan t).map showItem)
       | none => "bad-op"
